@@ -308,4 +308,23 @@ Definition op_matrix (w1 w2 : list T) (m : list (list T)) : Oper (wspace w1) (ws
     (fun x : list T => mvec m x)
     (fun (_ : list T) (y : list T) => mvec (transpose (length w1) m) y)
     true.
+
+(* NumericalGradient(f, method, step) of derivatives.py on a 1-d tensor space:
+   dx = step * e_i (step/2 for 'central'), differences divided by step at the end.
+   No weighting enters (open finding numericalgradient-weighted-space). *)
+Fixpoint unit_step (n i : nat) (h : T) : list T :=
+  match n with
+  | O => []
+  | S n' => match i with O => h :: vconst n' nzero | S i' => nzero :: unit_step n' i' h end
+  end.
+Inductive ngmethod := NGForward | NGBackward | NGCentral.
+Definition numgrad (w : list T) (e : fexpr (wspace w)) (m : ngmethod) (h : T) (x : list T) : list T :=
+  let n := length w in
+  let f := fun y : list T => value e y in
+  map (fun i =>
+         match m with
+         | NGForward => (f (vadd x (unit_step n i h)) - f x) / h
+         | NGBackward => (f x - f (vsub x (unit_step n i h))) / h
+         | NGCentral => (f (vadd x (unit_step n i (h / of_Z 2))) - f (vsub x (unit_step n i (h / of_Z 2)))) / h
+         end) (seq 0 n).
 End Lists.
